@@ -1138,6 +1138,223 @@ theorem Stuck.false (S : Stuck c tr act) (hn : 0 < c.n) (hmut : c.mutAddOpen = f
 
 end stuck
 
+/-! ## what `on_last_parked` does during a GC that does not end -/
+
+theorem takeSentinel_sentinel (s : State) (b k : Nat) :
+    ((takeSentinel s b).bkt k).sentinel = if k = b then none else (s.bkt k).sentinel := by
+  unfold takeSentinel
+  cases hs : (s.bkt b).sentinel with
+  | none =>
+    simp only [emit]
+    split
+    · rename_i e; subst e; exact hs
+    · rfl
+  | some p =>
+    simp only [emit, setBkt]
+    split <;> rfl
+
+theorem schedLoop_sentinel_none (bs : List Nat) : ∀ (s : State) (acc : Bool) (k : Nat),
+    (s.bkt k).sentinel = none → ((schedSentinelsLoop s bs acc).1.bkt k).sentinel = none := by
+  induction bs with
+  | nil => intro s acc k h; exact h
+  | cons b bs ih =>
+    intro s acc k h
+    unfold schedSentinelsLoop
+    split
+    · apply ih; rw [takeSentinel_sentinel]; split
+      · rfl
+      · exact h
+    · exact ih _ _ _ h
+
+/-- if `schedule_sentinels` reports a scheduled sentinel, some sentinel slot was emptied -/
+theorem schedLoop_takes (bs : List Nat) : ∀ (s : State), (schedSentinelsLoop s bs false).2 = true →
+    ∃ b, b ∈ bs ∧ (s.bkt b).sentinel ≠ none ∧ ((schedSentinelsLoop s bs false).1.bkt b).sentinel = none := by
+  induction bs with
+  | nil => intro s h; simp [schedSentinelsLoop] at h
+  | cons b bs ih =>
+    intro s h
+    unfold schedSentinelsLoop at h ⊢
+    split
+    · rename_i ho
+      rw [if_pos ho] at h
+      cases hh : hasSentinel s b with
+      | true =>
+        refine ⟨b, List.mem_cons_self .., ?_, ?_⟩
+        · unfold hasSentinel at hh; intro e; rw [e] at hh; cases hh
+        · apply schedLoop_sentinel_none; rw [takeSentinel_sentinel]; simp
+      | false =>
+        rw [hh] at h; simp only [Bool.or_false] at h ⊢
+        obtain ⟨b', hb', h1, h2⟩ := ih _ h
+        refine ⟨b', List.mem_cons_of_mem _ hb', ?_, h2⟩
+        rw [takeSentinel_none s b hh] at h1; exact h1
+    · rename_i ho
+      rw [if_neg ho] at h
+      obtain ⟨b', hb', h1, h2⟩ := ih _ h
+      exact ⟨b', List.mem_cons_of_mem _ hb', h1, h2⟩
+
+theorem openBkt_sentinel (s : State) (b k : Nat) : ((openBkt s b).bkt k).sentinel = (s.bkt k).sentinel := by
+  simp only [openBkt, emit, setBkt]; split
+  · rename_i e; subst e; rfl
+  · rfl
+
+theorem openBkt_isOpen_mono (s : State) (b k : Nat) (h : (s.bkt k).isOpen = true) : ((openBkt s b).bkt k).isOpen = true := by
+  simp only [openBkt, emit, setBkt]; split
+  · rfl
+  · exact h
+
+theorem openBkt_isOpen_self (s : State) (b : Nat) : ((openBkt s b).bkt b).isOpen = true := by
+  simp [openBkt, emit, setBkt]
+
+theorem updateLoop_mono (c : Cfg) (bs : List Nat) : ∀ (s : State) (u : Bool) (k : Nat),
+    ((s.bkt k).isOpen = true → ((updateLoop c s bs u).1.bkt k).isOpen = true) ∧
+    ((s.bkt k).sentinel = none → ((updateLoop c s bs u).1.bkt k).sentinel = none) := by
+  induction bs with
+  | nil => intro s u k; exact ⟨id, id⟩
+  | cons b bs ih =>
+    intro s u k
+    have hts : (s.bkt k).sentinel = none → ((takeSentinel (openBkt s b) b).bkt k).sentinel = none := by
+      intro h; rw [takeSentinel_sentinel]; split
+      · rfl
+      · rw [openBkt_sentinel]; exact h
+    have hto : (s.bkt k).isOpen = true → ((takeSentinel (openBkt s b) b).bkt k).isOpen = true := by
+      intro h; rw [takeSentinel_isOpen]; exact openBkt_isOpen_mono s b k h
+    unfold updateLoop
+    split
+    · exact ih _ _ _
+    · split
+      · exact ih _ _ _
+      · split
+        · split
+          · exact ⟨openBkt_isOpen_mono s b k, fun h => by rw [openBkt_sentinel]; exact h⟩
+          · split
+            · exact ⟨hto, hts⟩
+            · exact ⟨fun h => (ih _ _ k).1 (hto h), fun h => (ih _ _ k).2 (hts h)⟩
+        · exact ih _ _ _
+
+/-- if `update_buckets` reports an update, some closed bucket was opened -/
+theorem updateLoop_opened (c : Cfg) (bs : List Nat) : ∀ (s : State) (u : Bool), (updateLoop c s bs u).2.1 = true →
+    u = true ∨ ∃ b, b ∈ bs ∧ (s.bkt b).isOpen = false ∧ ((updateLoop c s bs u).1.bkt b).isOpen = true := by
+  induction bs with
+  | nil => intro s u h; left; simpa [updateLoop] using h
+  | cons b bs ih =>
+    intro s u h
+    have lift : ∀ t u', (updateLoop c t bs u').2.1 = true → (∀ k, (t.bkt k).isOpen = false → (s.bkt k).isOpen = false) →
+        u' = true ∨ ∃ b', b' ∈ b :: bs ∧ (s.bkt b').isOpen = false ∧ ((updateLoop c t bs u').1.bkt b').isOpen = true := by
+      intro t u' ht hcl
+      rcases ih t u' ht with e | ⟨b', hb', h1, h2⟩
+      · exact Or.inl e
+      · exact Or.inr ⟨b', List.mem_cons_of_mem _ hb', hcl b' h1, h2⟩
+    unfold updateLoop at h ⊢
+    split
+    · rename_i h1; rw [if_pos h1] at h; exact lift s u h (fun _ => id)
+    · rename_i h1; rw [if_neg h1] at h
+      split
+      · rename_i h2; rw [if_pos h2] at h; exact lift s u h (fun _ => id)
+      · rename_i h2; rw [if_neg h2] at h
+        split
+        · rename_i h3
+          have hcl : (s.bkt b).isOpen = false := (canOpenNow_facts h3).2.1
+          right
+          refine ⟨b, List.mem_cons_self .., hcl, ?_⟩
+          split
+          · exact openBkt_isOpen_self s b
+          · split
+            · rw [takeSentinel_isOpen]; exact openBkt_isOpen_self s b
+            · apply (updateLoop_mono c bs _ _ b).1
+              rw [takeSentinel_isOpen]; exact openBkt_isOpen_self s b
+        · rename_i h3; rw [if_neg h3] at h; exact lift s u h (fun _ => id)
+
+/-- the three ways `on_last_parked` can return during a GC without completing it -/
+theorem onLastParked_gc_cases {c : Cfg} {s s' : State} {tag : Nat} {r : LPR} (h : onLastParked c s tag = some (s', r))
+    (hcur : s.current = some .gc) (hg : s'.gcDone = s.gcDone) :
+    (hasDesignated c s = true ∧ s' = s ∧ r = .wakeAll) ∨
+    (∃ b, b < c.L ∧ (s.bkt b).sentinel ≠ none ∧ (s'.bkt b).sentinel = none) ∨
+    (∃ b, b < c.L ∧ (s.bkt b).isOpen = false ∧ (s'.bkt b).isOpen = true) := by
+  unfold onLastParked at h
+  rw [hcur] at h
+  simp only at h
+  split at h
+  · cases h
+  · split at h
+    · cases h
+    · split at h
+      · rename_i hd
+        injection h with h; injection h with h1 h2; subst h1; subst h2
+        exact Or.inl ⟨hd, rfl, rfl⟩
+      · split at h
+        · rename_i hss
+          injection h with h; injection h with h1 h2; subst h1
+          right; left
+          unfold schedSentinels at hss ⊢
+          obtain ⟨b, hb, h1, h2⟩ := schedLoop_takes _ s hss
+          exact ⟨b, List.mem_range.1 hb, h1, h2⟩
+        · rename_i hss
+          have hbk : (schedSentinels c s).1.bkt = s.bkt := schedSentinels_false c s (by simpa using hss)
+          split at h
+          · rename_i hub
+            injection h with h; injection h with h1 h2; subst h1
+            right; right
+            unfold updateBuckets at hub ⊢
+            simp only [Bool.and_eq_true] at hub
+            rcases updateLoop_opened c _ _ false hub.1 with e | ⟨b, hb, h1, h2⟩
+            · cases e
+            · exact ⟨b, List.mem_range.1 hb, by rw [← hbk]; exact h1, h2⟩
+          · split at h
+            · cases h
+            · rename_i s3 hg3
+              exfalso
+              have g1 : (schedSentinels c s).1.gcDone = s.gcDone := (sbb_schedSentinels c s).counters.2.2.1
+              have g2 : (updateBuckets c (schedSentinels c s).1).1.gcDone = s.gcDone :=
+                ((sbb_updateBuckets c _).counters.2.2.1).trans g1
+              have g3 : s3.gcDone = s.gcDone := (onGcFinished_gcDone c _ _ hg3).trans g2
+              split at h
+              · injection h with h; injection h with h1 h2; subst h1
+                have : (completeGc s3).gcDone = s3.gcDone + 1 := rfl
+                omega
+              · have := respond_gcDone c _ _ _ _ h
+                have : (completeGc s3).gcDone = s3.gcDone + 1 := rfl
+                omega
+
+/-- during a GC that does not end, `on_last_parked` never closes a bucket and never fills a sentinel slot -/
+theorem onLastParked_gc_mono {c : Cfg} {s s' : State} {tag : Nat} {r : LPR} (h : onLastParked c s tag = some (s', r))
+    (hcur : s.current = some .gc) (hg : s'.gcDone = s.gcDone) (k : Nat) :
+    ((s.bkt k).isOpen = true → (s'.bkt k).isOpen = true) ∧ ((s.bkt k).sentinel = none → (s'.bkt k).sentinel = none) := by
+  unfold onLastParked at h
+  rw [hcur] at h
+  simp only at h
+  split at h
+  · cases h
+  · split at h
+    · cases h
+    · split at h
+      · injection h with h; injection h with h1 h2; subst h1; exact ⟨id, id⟩
+      · have m1 : ((s.bkt k).isOpen = true → ((schedSentinels c s).1.bkt k).isOpen = true) ∧
+            ((s.bkt k).sentinel = none → ((schedSentinels c s).1.bkt k).sentinel = none) := by
+          refine ⟨fun e => by rw [schedSentinels_isOpen]; exact e, fun e => ?_⟩
+          unfold schedSentinels; simp only [emit]; exact schedLoop_sentinel_none _ s false k e
+        split at h
+        · injection h with h; injection h with h1 h2; subst h1; exact m1
+        · split at h
+          · injection h with h; injection h with h1 h2; subst h1
+            have m2 := updateLoop_mono c (List.range c.L) (schedSentinels c s).1 false k
+            unfold updateBuckets; simp only [emit]
+            exact ⟨fun e => m2.1 (m1.1 e), fun e => m2.2 (m1.2 e)⟩
+          · split at h
+            · cases h
+            · rename_i s3 hg3
+              exfalso
+              have g1 : (schedSentinels c s).1.gcDone = s.gcDone := (sbb_schedSentinels c s).counters.2.2.1
+              have g2 : (updateBuckets c (schedSentinels c s).1).1.gcDone = s.gcDone :=
+                ((sbb_updateBuckets c _).counters.2.2.1).trans g1
+              have g3 : s3.gcDone = s.gcDone := (onGcFinished_gcDone c _ _ hg3).trans g2
+              split at h
+              · injection h with h; injection h with h1 h2; subst h1
+                have : (completeGc s3).gcDone = s3.gcDone + 1 := rfl
+                omega
+              · have := respond_gcDone c _ _ _ _ h
+                have : (completeGc s3).gcDone = s3.gcDone + 1 := rfl
+                omega
+
 /-! ## every worker eventually parks: the last parker runs `on_last_parked` -/
 
 theorem FairRun.step_at {c : Cfg} {tr : Nat → State} {act : Nat → Option Act} (R : FairRun c tr act) {k : Nat} {a : Act}
